@@ -103,6 +103,8 @@ world.INLINE.update({
     'config.py::enter_interactive_mode',
     'config.py::exit_interactive_mode',
     'config.py::_parse_context',
+    'config_parser.py::ConfigParser._raise_syntax_error',
+    'config_parser.py::ConfigParser._current_location',
     'config.py::_raise_unknown_configurable_error',
     'config.py::_raise_unknown_reference_error',
     'selector_map.py::SelectorMap.items',
